@@ -257,6 +257,8 @@ def run(ctx):
                          "observed_not_judged": {"status queries failing while Close compacts the history (original unlinked under the reader)": stats.get("read_errors_during_compaction", 0)}}
     ctx.cov["crash"] = {"runs": len(crash), "killed": stats["kills"], "ended_before_the_kill": stats["not_killed"], "by_how": stats["by_how"],
                         "boundaries_hit": stats["boundaries"], "reported_after_kill": stats["reported_after_kill"],
+                        "shutdown_boundaries": info.pop("shutdown_boundaries", None),
+                        "kills_after_final_status": len([c for c in crash if c.get("after_final")]),
                         "scenarios": info, "seconds": round(t2 - t1, 1)}
     ctx.cov["monitor_classes"] = stats["monitor_classes"]
     ctx.cov["exhaustive"] = False
@@ -270,7 +272,7 @@ def run(ctx):
     for c in [x for x in crash if x.get("killed")][:2]:
         ctx.sample({k: c[k] for k in ("scenario", "how", "arg", "boundary", "markers") if k in c})
     ctx.assumptions = ["in-process runs use the scripted executor; crash scenarios use sh steps with marker files",
-                       "history of one DAG per scratch data directory; restarts happen in a later second than the kill (C06-same-second is a separate finding)"]
+                       "history of one DAG per scratch data directory (no earlier runs): a run killed before its first history line leaves no trace"]
     if ctx.tier == "thorough":
         ctx.coqchk()
 
